@@ -147,6 +147,9 @@ func siteReaches(a, b *evalSite, loops []*core.Loop) bool {
 
 func runC01(c *core.Ctx, r *core.Reporter) {
 	c.BuildSSA()
+	// "quoting a datum of any kind yields exactly that datum": the reader applies the quote marker to every kind of object
+	c02deliver(c, r, "C01.quote")
+	c01testvalue(c, r)
 	const once = "C01.once"
 	const branch = "C01.branch"
 	r.Rule(once, "in the Call method of each core form (and the helpers in its package that it calls statically), no two distinct evaluation sites with the same list operand and the same index (constants folded; or the same SSA index value inside one loop iteration) lie on one path", 25)
@@ -516,5 +519,64 @@ func c01fresh(c *core.Ctx, r *core.Reporter) {
 		}
 		bad, _ := selfStores(fn)
 		r.Decide(len(bad) == 0, rule, "pkg/cl:"+name, c.Pos(fn.Pos()), fmt.Sprintf("fields of the function object written during Call: %v", bad))
+	}
+}
+
+// c01testvalue: cond and or return the value of the test that selected the outcome: (cond (5)) => 5,
+// (or nil 2) => 2. In their Call methods the result of every evaluation (slip.EvalArg) can reach the returned
+// value; an evaluation whose result is only compared with nil loses the value. Before 260682b the test of a
+// cond clause was only compared: (cond (nil 1) (5) (t 3)) => nil.
+func c01testvalue(c *core.Ctx, r *core.Reporter) {
+	const rule = "C01.testvalue"
+	r.Rule(rule, "in the Call methods of cond and or, the value of every evaluation can flow to the returned result (a test whose value is only compared with nil cannot be returned by a test-only clause)", 3)
+	for _, name := range []string{"cond", "or"} {
+		b := c.ByName("pkg/cl", name)
+		if b == nil || b.Call == nil {
+			r.Undecided(rule, "pkg/cl:"+name, "-", "form not found in the registry")
+			continue
+		}
+		fn := c.SSAFunc(b.Call)
+		n := 0
+		for _, blk := range fn.Blocks {
+			for _, in := range blk.Instrs {
+				call, ok := in.(*ssa.Call)
+				if !ok {
+					continue
+				}
+				cal := call.Call.StaticCallee()
+				if cal == nil || cal.Name() != "EvalArg" || cal.Pkg == nil || cal.Pkg.Pkg.Path() != core.SlipPath {
+					continue
+				}
+				n++
+				reaches := false
+				seen := map[ssa.Value]bool{}
+				var visit func(v ssa.Value, depth int)
+				visit = func(v ssa.Value, depth int) {
+					if depth > 6 || seen[v] || v.Referrers() == nil {
+						return
+					}
+					seen[v] = true
+					for _, ref := range *v.Referrers() {
+						switch x := ref.(type) {
+						case *ssa.Return:
+							reaches = true
+						case *ssa.Phi:
+							visit(x, depth+1)
+						case *ssa.Store:
+							if al, ok := x.Addr.(*ssa.Alloc); ok && x.Val == v {
+								// the named result: loaded at the return
+								for _, r2 := range *al.Referrers() {
+									if ld, ok := r2.(*ssa.UnOp); ok {
+										visit(ld, depth+1)
+									}
+								}
+							}
+						}
+					}
+				}
+				visit(call, 0)
+				r.Decide(reaches, rule, fmt.Sprintf("pkg/cl:%s|evaluation #%d", name, n), c.Pos(call.Pos()), fmt.Sprintf("the evaluated value can reach the result of the form: %v", reaches))
+			}
+		}
 	}
 }
